@@ -33,7 +33,9 @@ LIB_SRCS = ["myth_log", "myth_sched", "myth_internal_barrier", "myth_bind_worker
             "myth_if_native", "myth_real", "myth_eco"]
 WRAP_SRCS = ["myth_wrap_pthread", "myth_wrap_malloc", "myth_wrap_socket"]
 BASE_CFLAGS = ["-DHAVE_CONFIG_H", "-D_GNU_SOURCE", "-D_XOPEN_SOURCE", "-D_DARWIN_C_SOURCE",
-               "-I" + os.path.join(REPO, "include"), "-I" + os.path.join(REPO, "src"), "-w"]
+               "-I" + os.path.join(REPO, "include"), "-I" + os.path.join(REPO, "src"),
+               # src/config.h is a configure product (not tracked): a pinned copy is used only when it is missing
+               "-idirafter", os.path.join(HARNESS, "pinned"), "-w"]
 
 
 class Splitmix:
